@@ -297,8 +297,8 @@ def run(ctx):
             ls = [l for l in blk.strip().split("\n") if l and not l.startswith("#")]
             if ls:
                 hist.append(ls)
-    n_small = ctx.scale(170, 6000)
-    n_big = ctx.scale(6, 300)
+    n_small = ctx.scale(280, 6000)
+    n_big = ctx.scale(10, 60)
     hist += [gen_history(rng, ctx.scale(450, 3000), big=True) for _ in range(n_big)]     # long ones first
     hist += [gen_history(rng, rng.choice([20, 60, 150, 300])) for _ in range(n_small)]
     with ThreadPoolExecutor(max_workers=NCPU) as ex:
